@@ -594,6 +594,21 @@ impl Reload {
         if after.last != want_last {
             mon.fail("C19", "last-selected", format!("last_selected_idx {:?}, expected {:?} (removed {})", after.last, want_last, removed.len()));
         }
+        // C11: the hysteresis reference of enhanced selection is "the previously selected uplink": whatever
+        // index survives a reload must still name the uplink that was selected before it
+        if let Some(i) = after.last {
+            let before_id = before.last.and_then(|j| before.links.get(j)).map(|l| l.id);
+            let after_id = after.links.get(i).map(|l| l.id);
+            if before_id.is_none() {
+                // the harness injected an index that named no uplink before the reload (the shell only ever
+                // stores the index of an existing uplink): outside the property's domain
+                mon.count("anchor-was-dangling-before");
+            } else if after_id.is_none() || after_id != before_id {
+                mon.fail("C11", "anchor-names-another-uplink", format!("after the reload last_selected_idx {i} names uplink {after_id:?}, the uplink selected before it was {before_id:?}"));
+            } else {
+                mon.count("anchor-kept-on-same-uplink");
+            }
+        }
 
         // coverage
         if !removed.is_empty() {
